@@ -133,7 +133,9 @@ class C07(core.Property):
           'a JAX_ENABLE_X64 subprocess running tree_sum/tree_mean/mean_aggregator/clip on float64 leaves with weights that '
           'are not float32-representable, judged at 1e-12 relative; weight objects of every kind - python/numpy scalars incl. '
           'uint8/int16 whose total leaves their range, 0-d and (1,)-shaped numpy arrays, jax scalars - snapshotted like the '
-          'trees; aggregator calls with a placeholder id for all clients or repeated ids); non-trivial = every realistic wrong variant '
+          'trees; trees with complex64 leaves (general, purely imaginary, mixed with real leaves) for clip / sum / mean / '
+          'aggregator, judged on the realified (re, im) coordinates: norm, one real scale = phase unchanged, identity; '
+          'aggregator calls with a placeholder id for all clients or repeated ids); non-trivial = every realistic wrong variant '
           '(unweighted mean, divide by count, no division, first tree only; for clip: identity, scale without '
           'min) differs from the right value by > 100x the comparison tolerance in some coordinate; '
           'distinct by case digest')
@@ -304,6 +306,72 @@ class C07(core.Property):
     return {'op': op, 'spec': spec, 'trees': [tree], 'w': w, 'wkind': wkind,
             'container': rng.choice(CONTAINERS), 'as_numpy': [rng.random() < 0.15], 'scale': scale}
 
+  def _complex_case(self, rng, fn=None):
+    """trees with complex64 leaves (non-zero imaginary parts, purely imaginary, mixed real/complex trees).  A complex
+    leaf is stored as [re, im] pairs; reference and model work on the realified coordinates."""
+    fn = fn or rng.choice(['clip', 'clip', 'clip', 'mean', 'sum', 'agg'])
+    nl = rng.choice([1, 2, 2])
+    leaves = [{'c': True, 'shape': [rng.choice([1, 2, 3])]}]
+    for _ in range(nl - 1):
+      leaves.append({'c': rng.random() < 0.5, 'shape': [rng.choice([1, 2, 3])]})
+    rng.shuffle(leaves)
+    nreal = sum((2 if lf['c'] else 1) * lf['shape'][0] for lf in leaves)
+    n = 1 if fn == 'clip' else rng.choice([1, 2, 3, 4])
+    style = rng.choice(['general', 'general', 'imag'])          # 'imag': purely imaginary complex leaves
+
+    def split(flat):
+      tree, i = [], 0
+      for lf in leaves:
+        k = lf['shape'][0]
+        if lf['c']:
+          vals = [[flat[i + 2 * j], flat[i + 2 * j + 1]] for j in range(k)]
+          if style == 'imag':
+            vals = [[0, v[1] if v[1] else v[0]] for v in vals]
+          i += 2 * k
+        else:
+          vals = flat[i:i + k]
+          i += k
+        tree.append(vals)
+      return tree
+    trees = []
+    for _ in range(n):
+      if fn == 'clip' and rng.random() < 0.6:
+        base = list(rng.choice([p for p in PYTHAG if len(p) <= nreal] or [[1]]))
+        base += [0] * (nreal - len(base))
+        rng.shuffle(base)
+        flat = [v * rng.choice([1, -1]) for v in base]
+      else:
+        flat = [rng.randrange(-8, 9) / rng.choice([1, 2, 4]) for _ in range(nreal)]
+      trees.append(split(flat))
+    case = {'op': 'cplx', 'fn': fn, 'leaves': leaves, 'trees': trees, 'container': rng.choice(CONTAINERS)}
+    if fn == 'clip':
+      x = self._realify(case, 0)
+      nrm2 = sum(v * v for v in x)
+      ex = exact_sqrt(nrm2)
+      if ex is not None and ex > 0:
+        M = float(ex * rng.choice(FACTORS_EXACT))
+      elif ex is None:
+        M = math.sqrt(nrm2) * rng.choice(FACTORS_FLOAT)
+      else:
+        M = rng.choice([0.5, 1, 2])
+      case['M'] = float(np.float32(M))
+      case['mkind'] = rng.choice(['float', 'np32', 'jnp'])
+      if rng.random() < 0.1:
+        case['Minf'] = rng.choice(INF_BOUNDS)
+    else:
+      case['weights'] = self._rand_weights(rng, n)
+      case['form'] = rng.choice(FORMS)
+    return case
+
+  @staticmethod
+  def _realify(case, ci):
+    """real coordinates (re, im interleaved for complex leaves) of client ci's tree, exact"""
+    out = []
+    for lf, vals in zip(case['leaves'], case['trees'][ci]):
+      for v in vals:
+        out.extend([F(v[0]), F(v[1])] if lf['c'] else [F(v)])
+    return out
+
   def _x64_case(self, rng, nsub):
     W = [0.1, 0.3, 1e-3, 16777217.0, 1 / 3, 0.7, 2.0, 1e-2, 123456789.0, 0.0, 5.0]
     subs = []
@@ -330,6 +398,7 @@ class C07(core.Property):
   def gen_cases(self, rng, tier):
     # float64 probe (one subprocess) first, so that it is never cut off by the budget
     yield self._x64_case(rng, 12 if tier == 'quick' else 30)
+    yield self._complex_case(rng, fn='clip')
     if tier == 'thorough':
       yield self._x64_case(rng, 30)
     if tier == 'thorough':
@@ -364,7 +433,9 @@ class C07(core.Property):
     n = {'quick': 520, 'thorough': 5000}.get(tier, 1500)
     for i in range(n):
       r = rng.random()
-      if r < 0.62:
+      if i % 14 == 7:
+        yield self._complex_case(rng)
+      elif r < 0.62:
         yield self._mean_case(rng)
       elif r < 0.87:
         yield self._clip_case(rng)
@@ -385,6 +456,22 @@ class C07(core.Property):
           if 'weights' in sub:
             c['weights'] = [w for i, w in enumerate(sub['weights']) if i != drop]
           yield {'op': 'x64', 'subs': [c]}
+      return
+    if op == 'cplx':
+      n = len(case['trees'])
+      if n > 1:
+        for drop in range(n):
+          c = {**case, 'trees': [t for i, t in enumerate(case['trees']) if i != drop]}
+          if 'weights' in case:
+            c['weights'] = [w for i, w in enumerate(case['weights']) if i != drop]
+          yield c
+      if len(case['leaves']) > 1:
+        for drop in range(len(case['leaves'])):
+          if any(lf['c'] for i, lf in enumerate(case['leaves']) if i != drop):
+            yield {**case, 'leaves': [l for i, l in enumerate(case['leaves']) if i != drop],
+                   'trees': [[l for i, l in enumerate(t) if i != drop] for t in case['trees']]}
+      if case.get('form', 'list') != 'list':
+        yield {**case, 'form': 'list'}
       return
     n = len(case['trees'])
     if op in ('mean', 'sum', 'agg') and n > 1:
@@ -546,6 +633,8 @@ class C07(core.Property):
     op = case['op']
     if op == 'x64':
       return self._eval_x64(case, ctx)
+    if op == 'cplx':
+      return self._eval_complex(case, ctx)
     if op in ('mean', 'agg', 'sum'):
       return self._eval_mean(case, ctx)
     if op == 'clip':
@@ -745,6 +834,142 @@ class C07(core.Property):
     return Outcome(oracle_fail='; '.join(problems[:4]) or None, key=key, nontrivial=any(v != 0 for v in xf), tags=tags,
                    detail={'impl': got, 'bound': kind, 'input': xf})
 
+  def _eval_complex(self, case, ctx):
+    jnp, fn = self.jnp, case['fn']
+    n = len(case['trees'])
+    trees = []
+    for t in case['trees']:
+      leaves = []
+      for lf, vals in zip(case['leaves'], t):
+        if lf['c']:
+          leaves.append(jnp.array(np.array([complex(v[0], v[1]) for v in vals], dtype=np.complex64)))
+        else:
+          leaves.append(jnp.array(np.array(vals, dtype=np.float32)))
+      trees.append(self._tree(leaves, case['container']))
+    snap = self._snapshot(trees)
+    xs = [self._realify(case, ci) for ci in range(n)]
+    m = len(xs[0])
+    problems, corr, key = [], [], None
+
+    def fail(k, msg):
+      nonlocal key
+      key = key or f'C07/complex-{fn}/{k}'
+      problems.append(msg)
+
+    def realify_out(out):
+      """real coordinates of the output; a real input leaf must come back with (numerically) zero imaginary part"""
+      vals, stray = [], 0.0
+      for lf, leaf in zip(case['leaves'], self.jax.tree_util.tree_leaves(out)):
+        a = np.asarray(leaf).reshape(-1)
+        for z in a:
+          z = complex(z)
+          if lf['c']:
+            vals.extend([z.real, z.imag])
+          else:
+            vals.append(z.real)
+            stray = max(stray, abs(z.imag))
+      return vals, stray
+
+    outs, got = [], None
+    inf_bound = fn == 'clip' and case.get('Minf')
+    if fn == 'clip':
+      if inf_bound:
+        M = {'pyinf': float('inf'), 'jnpinf': jnp.inf, 'npinf': np.float32(np.inf), 'big': 1e39}[case['Minf']]
+        fM = None
+      else:
+        fM = F(case['M'])
+        M = self._conv_w(float(fM), case['mkind'])
+      call = lambda: self.tu.tree_clip_by_global_norm(trees[0], M)
+    else:
+      fw = [F(w) for w in case['weights']]
+      ws = [float(w) for w in fw]
+      call = lambda: self._call(fn, trees, ws, case['form'], list(range(n)))
+    try:
+      out = call()
+      outs.append(out)
+      bad = self._struct_ok(out, trees[0])
+      if bad:
+        fail('structure', bad)
+      else:
+        got, stray = realify_out(out)
+    except Exception as e:
+      fail('raised', f'{fn} on a tree with complex64 leaves raised {type(e).__name__}: {str(e)[:140]}')
+    lines = []
+    S = want = None
+    if fn == 'clip':
+      x = xs[0]
+      xf = [float(v) for v in x]
+      nrm2 = sum(v * v for v in x)
+      ex = exact_sqrt(nrm2)
+      nrm = ex if ex is not None else F(math.sqrt(nrm2))
+      scale_in = max([abs(v) for v in xf] + [0.0])
+      if got is not None:
+        if any(not math.isfinite(g) for g in got):
+          fail('nan', f'non-finite output {got}')
+        else:
+          if stray > 1e-6 * scale_in:
+            fail('direction', f'a real leaf came back with imaginary part {stray}')
+          on = math.sqrt(sum(g * g for g in got))
+          if fM is not None and on > float(fM) * (1 + 1e-5):
+            fail('norm', f'norm of the result {on} exceeds the bound {float(fM)} (input norm {float(nrm)})')
+          if scale_in > 0:
+            j = max(range(m), key=lambda i: abs(xf[i]))
+            s_ = got[j] / xf[j]
+            if not (0 < s_ <= 1 + 1e-6):
+              fail('direction', f'scale {s_} not in (0, 1]')
+            elif any(abs(g - s_ * v) > 1e-5 * scale_in for g, v in zip(got, xf)):
+              fail('direction', f'result {got} is not a positive real multiple of the input {xf} '
+                                f'(real/imaginary coordinates interleaved): modulus or phase changed')
+          if (fM is None or nrm2 <= fM * fM) and got != [float(np.float32(v)) for v in xf]:
+            fail('identity', f'norm {float(nrm)} <= bound {"inf" if fM is None else float(fM)} but result {got} != input {xf}')
+      if fM is not None:
+        lines.append(line('c07.clip', nrm, fM, x))
+        S = [abs(v) for v in x]
+    else:
+      W = sum(fw)
+      if fn == 'sum':
+        want = [sum(t[k] for t in xs) for k in range(m)]
+        S = [sum(abs(t[k]) for t in xs) for k in range(m)]
+        lines.append(line('c07.sum', xs))
+      else:
+        want = [(sum(w * t[k] for w, t in zip(fw, xs)) / W) if W > 0 else F(0) for k in range(m)]
+        S = [(sum(abs(w * t[k]) for w, t in zip(fw, xs)) / W) if W > 0 else F(0) for k in range(m)]
+        lines.append(line('c07.mean' if fn == 'mean' else 'c07.agg', xs, fw))
+      if got is not None:
+        if any(not math.isfinite(g) for g in got):
+          fail('nan', f'non-finite output {got}')
+        else:
+          for k in range(m):
+            if abs(got[k] - float(want[k])) > tol(S[k], want[k]):
+              fail('value', f'real coordinate {k}: got {got[k]}, expected {float(want[k])}')
+              break
+          if fn != 'sum' and W > 0:
+            for k in range(m):
+              lo, hi = min(t[k] for t in xs), max(t[k] for t in xs)
+              if not (float(lo) - tol(S[k], lo) <= got[k] <= float(hi) + tol(S[k], hi)):
+                fail('hull', f'real coordinate {k}: {got[k]} outside [{float(lo)}, {float(hi)}]')
+                break
+    for k, msg in self._harm(snap, outs):
+      fail(k, msg)
+    ctx.count('monitor_inputs_unharmed', len(snap[0]))
+    if lines:
+      a = ctx.drv.ask(lines)[0]
+      model = a[0] if fn == 'clip' else a
+      if model is None or isinstance(model, str):
+        corr.append(f'model answered {model}')
+      else:
+        if want is not None and [F(v) for v in model] != want:
+          corr.append(f'model {model} differs from the harness statement {want}')
+        if got is not None and len(got) == len(model):
+          for k in range(m):
+            if not abs(got[k] - float(model[k])) <= tol(S[k], model[k]):
+              corr.append(f'real coordinate {k}: implementation {got[k]} vs model {float(F(model[k]))}')
+              break
+    kinds = 'mixed-real-complex' if not all(lf['c'] for lf in case['leaves']) else 'all-complex'
+    tags = ('op=cplx', f'fn={fn}', kinds, 'infinite-bound' if inf_bound else 'finite')
+    return Outcome(oracle_fail='; '.join(problems[:4]) or None, corr_fail='; '.join(corr[:3]) or None, key=key,
+                   nontrivial=any(v != 0 for x in xs for v in x), tags=tags, detail={'impl': got})
+
   def _eval_x64(self, case, ctx):
     """float64 probe: the real functions under JAX_ENABLE_X64=1 in one subprocess, judged at 1e-12 relative."""
     subs = case['subs']
@@ -782,7 +1007,7 @@ class C07(core.Property):
              + ('deleted' if r['deleted'] else 'modified'))
       got = r['out']
       if r['dtype'] != ['float64']:
-        fail('dtype', f'{tagp}: output dtype {r["dtype"]} for float64 inputs')
+        ctx.count('x64_output_dtype_not_float64')       # recorded only: the property fixes values, not dtypes
       if any(not math.isfinite(g) for g in got):
         fail('nan', f'{tagp}: non-finite output {got}')
         continue
